@@ -27,20 +27,29 @@ def model_failing(builders, results, work, tag):
     idx_all = list(range(len(builders)))
     shards = chunks(idx_all, 120)
 
+    hyp_out = []
+
     def one(k):
         idx = shards[k]
         body = "[\n" + ";\n".join(progs.coq_gcase(builders[i], results[i]) for i in idx) + "]"
-        v = progs.HEADER + "Definition cases : list gcase := %s.\nEval vm_compute in (gfailing cases).\n" % body
+        # second evaluation: the histories must satisfy the HYPOTHESIS of the history-level theorems (hist_ok of Proofs/EngineP.v), so that
+        # Props/C01.v / C02.v speak about exactly the programs that were run
+        v = (progs.HEADER + "From MG Require Import Proofs.EngineP.\n"
+             "Fixpoint hypfail_from (i : nat) (cs : list gcase) : list nat := match cs with [] => [] | c :: cs' => "
+             "if hist_ok g_init (fst (fst c)) then hypfail_from (S i) cs' else i :: hypfail_from (S i) cs' end.\n"
+             "Definition cases : list gcase := %s.\nEval vm_compute in (gfailing cases).\nEval vm_compute in (hypfail_from 0 cases).\n" % body)
         out = eval_cases(v, work, name="%s_%d" % (tag, k))
         lists = parse_coq_list_of_nat(out)
-        if len(lists) != 1:
+        if len(lists) != 2:
             raise HarnessError("unparsable Coq output: " + out[-400:])
+        hyp_out.extend(idx[j] for j in lists[1])
         return [idx[j] for j in lists[0]]
 
     bad = []
     with cf.ThreadPoolExecutor(max_workers=8) as ex:
         for r in ex.map(one, range(len(shards))):
             bad.extend(r)
+    model_failing.outside_hypothesis = sorted(hyp_out)
     return sorted(bad)
 
 
@@ -117,6 +126,11 @@ def run(rep, work, tier, seed, props, replay=None):
     kb = [builders[i] for i in keep]
     kr = [results[i] for i in keep]
     bad = model_failing(kb, kr, work, "c01")
+    outside = list(getattr(model_failing, "outside_hypothesis", []))
+    if outside:
+        j = sorted(outside, key=lambda j: len(kb[j].stmts))[0]
+        rep.violation({"kind": "a generated history does not satisfy the hypothesis hist_ok of the history-level theorems of Props/C01.v (the theorems would not cover it)",
+                       "broken": "correspondence C01: hypotheses of C01_backward_adjoint / C01_every_tensor", "stmts": kb[j].stmts, "n": len(outside)}, no_input=True)
     bad_sorted = sorted(bad, key=lambda j: len(kb[j].stmts))
     for j in bad_sorted[:8]:
         rep.violation({"kind": "gradients / graph bookkeeping differ from the proved model (Model/GraphP.v) on an exact-integer program",
@@ -137,6 +151,7 @@ def run(rep, work, tier, seed, props, replay=None):
         for o in r["outcomes"]:
             if o is not None:
                 exc[o] = exc.get(o, 0) + 1
+    rep.coverage["histories_meeting_theorem_hypotheses"] = len(kb) - len(outside)
     rep.coverage.update({
         "evaluations": len(kb),
         "distinct_nontrivial": len(nt),
